@@ -49,8 +49,14 @@ impl W {
 
     pub fn use_claimable(&self, db: &mut Db, mint: Pubkey, owner: Pubkey, ts: i64, by: Pubkey) -> std::result::Result<Pubkey, TxError> {
         let account = self.claimable_pda(db, &mint, &owner, ts);
+        let i = self.use_claimable_ix(db, mint, owner, ts, by);
+        process(db, &i, &[by]).map(|_| account)
+    }
+
+    pub fn use_claimable_ix(&self, db: &Db, mint: Pubkey, owner: Pubkey, ts: i64, by: Pubkey) -> solana_program::instruction::Instruction {
+        let account = self.claimable_pda(db, &mint, &owner, ts);
         let accounts = gmsol_store::accounts::UseClaimableAccount { authority: by, store: self.store, mint, owner, account, system_program: sys(), token_program: spl_token::ID };
-        process(db, &ix(self.pid, accounts, gmsol_store::instruction::UseClaimableAccount { timestamp: ts, amount: 0 }), &[by]).map(|_| account)
+        ix(self.pid, accounts, gmsol_store::instruction::UseClaimableAccount { timestamp: ts, amount: 0 })
     }
 
     pub fn order_params(kind: OrderKind, side: Side, collateral_delta: u64, size_delta_value: u128) -> CreateOrderParams {
@@ -105,6 +111,10 @@ impl W {
     }
 
     pub fn execute_increase(&self, db: &mut Db, m: &MarketKeys, owner: Pubkey, nonce: [u8; 32], side: Side, by: Pubkey, throw: bool) -> std::result::Result<(), TxError> {
+        process(db, &self.execute_increase_ix(m, owner, nonce, side, by, throw), &[by])
+    }
+
+    pub fn execute_increase_ix(&self, m: &MarketKeys, owner: Pubkey, nonce: [u8; 32], side: Side, by: Pubkey, throw: bool) -> solana_program::instruction::Instruction {
         let order = self.order_pda(&owner, &nonce);
         let ctoken = if side.collateral_long { m.long } else { m.short };
         let (ts, _) = crate::svm::clock();
@@ -120,7 +130,7 @@ impl W {
         };
         let mut i = ix(self.pid, accounts, gmsol_store::instruction::ExecuteIncreaseOrSwapOrderV2 { recent_timestamp: ts, execution_fee: 5_000, throw_on_execution_error: throw });
         i.accounts.extend(self.feeds_for(m));
-        process(db, &i, &[by])
+        i
     }
 
     /// market decrease order: withdraw `collateral` of the collateral token and reduce the size by `size` USD
@@ -150,14 +160,24 @@ impl W {
     }
 
     pub fn execute_decrease(&self, db: &mut Db, m: &MarketKeys, owner: Pubkey, nonce: [u8; 32], side: Side, by: Pubkey, throw: bool) -> std::result::Result<(), TxError> {
+        let (ts, _) = crate::svm::clock();
+        let holding = *db.pod::<Store>(&self.store).expect("store").holding();
+        let pnl_token = if side.is_long { m.long } else { m.short };
+        self.use_claimable(db, m.long, owner, ts, by)?;
+        self.use_claimable(db, m.short, owner, ts, by)?;
+        self.use_claimable(db, pnl_token, holding, ts, by)?;
+        let i = self.execute_decrease_ix(db, m, owner, nonce, side, by, throw);
+        process(db, &i, &[by])
+    }
+
+    /// the instruction alone (the claimable accounts of the current time window must have been prepared by a keeper)
+    pub fn execute_decrease_ix(&self, db: &Db, m: &MarketKeys, owner: Pubkey, nonce: [u8; 32], side: Side, by: Pubkey, throw: bool) -> solana_program::instruction::Instruction {
         let order = self.order_pda(&owner, &nonce);
         let ctoken = if side.collateral_long { m.long } else { m.short };
         let (ts, _) = crate::svm::clock();
         let holding = *db.pod::<Store>(&self.store).expect("store").holding();
         let pnl_token = if side.is_long { m.long } else { m.short };
-        let cl = self.use_claimable(db, m.long, owner, ts, by)?;
-        let cs = self.use_claimable(db, m.short, owner, ts, by)?;
-        let ch = self.use_claimable(db, pnl_token, holding, ts, by)?;
+        let (cl, cs, ch) = (self.claimable_pda(db, &m.long, &owner, ts), self.claimable_pda(db, &m.short, &owner, ts), self.claimable_pda(db, &pnl_token, &holding, ts));
         let accounts = gmsol_store::accounts::ExecuteDecreaseOrderV2 {
             authority: by, store: self.store, token_map: self.token_map, oracle: self.oracle, market: m.market, owner, user: self.user_pda(&owner), order,
             position: self.position_pda(&owner, m, side), event: self.event_pda(&by, 0),
@@ -171,7 +191,7 @@ impl W {
         };
         let mut i = ix(self.pid, accounts, gmsol_store::instruction::ExecuteDecreaseOrderV2 { recent_timestamp: ts, execution_fee: 5_000, throw_on_execution_error: throw });
         i.accounts.extend(self.feeds_for(m));
-        process(db, &i, &[by])
+        i
     }
 
     /// close an order (`increase`: whether it was created by `create_increase`, else by `create_decrease`)
@@ -196,6 +216,18 @@ impl W {
 
     /// liquidate the position of `owner` (keeper instruction; the order account belongs to the keeper)
     pub fn liquidate(&self, db: &mut Db, m: &MarketKeys, owner: Pubkey, nonce: [u8; 32], side: Side, by: Pubkey) -> std::result::Result<(), TxError> {
+        let (ts, _) = crate::svm::clock();
+        let holding = *db.pod::<Store>(&self.store).expect("store").holding();
+        let pnl_token = if side.is_long { m.long } else { m.short };
+        self.use_claimable(db, m.long, owner, ts, by)?;
+        self.use_claimable(db, m.short, owner, ts, by)?;
+        self.use_claimable(db, pnl_token, holding, ts, by)?;
+        let i = self.liquidate_ix(db, m, owner, nonce, side, by);
+        process(db, &i, &[by])
+    }
+
+    /// the instruction alone (escrow accounts are fabricated, claimable accounts must exist)
+    pub fn liquidate_ix(&self, db: &mut Db, m: &MarketKeys, owner: Pubkey, nonce: [u8; 32], side: Side, by: Pubkey) -> solana_program::instruction::Instruction {
         let order = self.order_pda(&by, &nonce);
         let (ts, _) = crate::svm::clock();
         let holding = *db.pod::<Store>(&self.store).expect("store").holding();
@@ -203,9 +235,7 @@ impl W {
         for mint in [m.long, m.short] {
             self.ensure_ata(db, &order, &mint);
         }
-        let cl = self.use_claimable(db, m.long, owner, ts, by)?;
-        let cs = self.use_claimable(db, m.short, owner, ts, by)?;
-        let ch = self.use_claimable(db, pnl_token, holding, ts, by)?;
+        let (cl, cs, ch) = (self.claimable_pda(db, &m.long, &owner, ts), self.claimable_pda(db, &m.short, &owner, ts), self.claimable_pda(db, &pnl_token, &holding, ts));
         let accounts = gmsol_store::accounts::PositionCut {
             authority: by, owner, user: self.user_pda(&owner), store: self.store, token_map: self.token_map, oracle: self.oracle, market: m.market, order,
             position: self.position_pda(&owner, m, side), event: self.event_pda(&by, 0), long_token: m.long, short_token: m.short,
@@ -216,7 +246,7 @@ impl W {
         };
         let mut i = ix(self.pid, accounts, gmsol_store::instruction::Liquidate { nonce, recent_timestamp: ts, execution_fee: 5_000 });
         i.accounts.extend(self.feeds_for(m));
-        process(db, &i, &[by])
+        i
     }
 
     /// feeds for the tokens of market `m`, in ascending token order (tokens A and B of the base world)
